@@ -103,7 +103,7 @@ def run(tier, seed):
             else:
                 if o["returned"] and o["entered"]:
                     entered_ok += 1
-                elif not o["returned"] and o["exc"] in REFUSALS_OK_WHEN_CONSISTENT and l["entry"].startswith("evaluate"):
+                elif not o["returned"] and o["exc"] in REFUSALS_OK_WHEN_CONSISTENT and not o["entered"]:
                     refused_ok += 1
                 elif not o["returned"]:
                     bad("consistent-call-refused", f"{o['exc']}: {o.get('msg')}")
